@@ -408,7 +408,7 @@ const NAMES: &[&str] = &["a", "b", "type", "d", "ns:e", "F", "text", "f"];
 fn bound_name(i: u8) -> &'static str {
     crate::model::child_bound(NAMES[i as usize])
 }
-const ATTRS: &[&str] = &["x", "b", "type", "w"];
+const ATTRS: &[&str] = &["x", "b", "type", "w", "text"];
 
 #[derive(Clone, Debug, PartialEq)]
 pub struct MNode {
@@ -657,7 +657,21 @@ fn compare<T: Name>(real: &Element<T>, m: &MNode, path: &str) -> Option<(String,
 
 /// the rendering must be well-formed and carry exactly the model's fields (compared as sets)
 fn render_compare<T: Name>(real: &Element<T>, m: &MNode) -> Option<(String, String)> {
-    let out = match guarded(|| real.to_serde_struct(&real::opts_qx(false))) {
+    // the same comparison under a text identifier that is itself a plausible field name ("text"),
+    // whenever no child is called `text` (then the two bindings would coincide by construction)
+    fn has_text_child(m: &MNode) -> bool {
+        m.children.iter().any(|(_, c)| NAMES[c.name as usize] == "text" || has_text_child(c))
+    }
+    if !has_text_child(m) {
+        if let Some(v) = render_compare_with(real, m, "text") {
+            return Some((format!("{}-with-text-identifier-text", v.0), v.1));
+        }
+    }
+    render_compare_with(real, m, "$text")
+}
+
+fn render_compare_with<T: Name>(real: &Element<T>, m: &MNode, text_id: &str) -> Option<(String, String)> {
+    let out = match guarded(|| real.to_serde_struct(&real::opts("@", text_id, "Serialize, Deserialize", false))) {
         Ok(o) => o,
         Err(p) => return Some(("render-panic".into(), p)),
     };
@@ -686,7 +700,7 @@ fn render_compare<T: Name>(real: &Element<T>, m: &MNode) -> Option<(String, Stri
     if names.windows(2).any(|w| w[0] == w[1]) {
         return Some(("render-malformed:dup-struct".into(), format!("duplicate struct name\n{}", out)));
     }
-    let etree = match extract::build_tree(&structs, "@", "$text") {
+    let etree = match extract::build_tree(&structs, "@", text_id) {
         Ok(t) => t,
         Err(e) => return Some(("render-untreeable".into(), format!("{}\n{}", e, out))),
     };
@@ -869,7 +883,7 @@ fn random_op(r: &mut Rng, model: &MNode) -> Op {
         6 | 7 => Op::Remove(path, n),
         8 | 9 => {
             let len = r.below(4);
-            let mut pool: Vec<u8> = (0..4).collect();
+            let mut pool: Vec<u8> = (0..5).collect();
             r.shuffle(&mut pool);
             pool.truncate(len);
             Op::Merge(path, pool.into_iter().map(|a| (a, r.chance(1, 2))).collect())
